@@ -10,11 +10,12 @@
 (*       (0: none / not one of ours), cfg = the version whose configuration  *)
 (*       came back (0: nil), delta = increase of configstore.Downloads()     *)
 (* TLC replays the publications into `pub` of ConfigDistStore and decides    *)
-(* every download with Result(pub, req).                                     *)
+(* every download with Result(pub, req); an unexplained line is printed as   *)
+(* <<"X02BAD", line, reasons>>.                                              *)
 EXTENDS ConfigDistStore, Json
 Trace == ndJsonDeserialize("x02store.ndjson")
-VARIABLES l, bad
-tvars == <<pub, last, calls, n, l, bad>>
+VARIABLE l
+tvars == <<pub, last, calls, n, l>>
 
 Observed(r) == [ok |-> r.ok, ver |-> r.ver, cfg |-> r.cfg]
 FailedLine(r) ==
@@ -26,7 +27,7 @@ FailedLine(r) ==
          \cup (IF ~r.ok /\ (r.cfg # 0 \/ r.ver # 0) THEN {"partial-result-with-error"} ELSE {})
          \cup (IF r.delta # 1 THEN {"not-counted-once"} ELSE {})
 
-TInit == /\ l = 1 /\ bad = <<>>
+TInit == /\ l = 1
          /\ pub = [v \in Vers |-> Unpub] /\ last = NoOp /\ calls = 0 /\ n = 0
 TNext == /\ l <= Len(Trace)
          /\ l' = l + 1
@@ -34,10 +35,9 @@ TNext == /\ l <= Len(Trace)
               /\ pub' = CASE r.op = "reset" -> [v \in Vers |-> Unpub]
                           [] r.op = "publish" -> [pub EXCEPT ![r.v] = r.c]
                           [] OTHER -> pub
-              /\ bad' = IF FailedLine(r) = {} THEN bad ELSE Append(bad, <<l, FailedLine(r)>>)
+              /\ LET f == FailedLine(r) IN IF f = {} THEN TRUE ELSE PrintT(<<"X02BAD", l, f>>)
          /\ UNCHANGED <<last, calls, n>>
 (* the recorder publishes every version at most once between two resets *)
 WellFormed == l <= Len(Trace) => (Trace[l].op = "publish" => pub[Trace[l].v] = Unpub)
-AllExplained == (l = Len(Trace) + 1) => bad = <<>>
 Accepted == TLCGet("stats").diameter = Len(Trace) + 1
 =============================================================================
